@@ -74,8 +74,8 @@ void future_body() {
   vmc::note(rf.str() + (a.stop_seen ? " stop" : ""));
 }
 }  // namespace
-VMC_HARNESS(fut_v2, "C09,C02,C01") { future_body<v2::async_scope>(); }
-VMC_HARNESS(fut_v1, "C09,C02,C01") { future_body<v1::async_scope>(); }
+VMC_HARNESS(fut_v2, "C09,C02,C01,C04") { future_body<v2::async_scope>(); }
+VMC_HARNESS(fut_v1, "C09,C02,C01,C04") { future_body<v1::async_scope>(); }
 
 
 // ---- tracked payload through a future, with a throwing copy/move ------------------------------------------------------
